@@ -454,7 +454,7 @@ func specDataFlags(p *chunkPayloadData) uint8 {
 //@   safety C03
 
 //@ func receivePayloadQueue.init
-//@   requires#ring len(q.tsnBitmask) > 0 && len(q.tsnBitmask) <= 1024 && len(q.tsnBitmask)&(len(q.tsnBitmask)-1) == 0 && uint64(q.maxTSNOffset) <= 64*uint64(len(q.tsnBitmask))
+//@   requires rpqInv(q)
 //@   loop 1 invariant#zeroed rangeIdx <= len(q.tsnBitmask) && len(q.tsnBitmask) == old(len(q.tsnBitmask)) && q.maxTSNOffset == old(q.maxTSNOffset) &&
 //@      q.cumulativeTSN == cumulativeTSN && q.tailTSN == cumulativeTSN && q.chunkSize == 0
 //@   loop 1 invariant#zeroed-words forall j int :: 0 <= j && j < rangeIdx ==> q.tsnBitmask[j] == 0
